@@ -100,11 +100,13 @@ proof fn lemma_demand_mono(a: Table, b: Table, ct: Table, cur: Seq<char>, c: Seq
     }
 }
 
-/// outlined (T3) - ASSUMED: `all_types.iter().flat_map(|(k, v)| v.iter().find(|&t| t == name && k != current).map(|t| (k, t))).next()`
-/// answers a pair only if crate k defines a type of that name and k is not the current crate
+/// T14b - `all_types.iter().flat_map(|(k, v)| v.iter().find(|&t| P(k, t)).map(|t| (k, t))).next()`: the first pair (crate k, one of its type names t)
+/// that satisfies P, as a search function taking P; P itself stays the source's text, as a closure with a stated contract.
+/// ASSUMED (std iterator semantics): an answer is a pair (k, t) with t one of the names `all_types` lists under k, for which P answered true
 #[verifier::external_body]
-fn find_reexport<'a>(all_types: &'a CrateTypes, name: &String, current: &CrateName) -> (r: Option<(&'a CrateName, &'a String)>)
-    ensures match r { Some((k, t)) => t@ == name@ && k@ != current@ && all_types.ct().dom().contains(k@) && all_types.ct()[k@].contains(t@), None => true }
+fn find_reexport<'a, F: Fn(&CrateName, &String) -> bool>(all_types: &'a CrateTypes, f: F) -> (r: Option<(&'a CrateName, &'a String)>)
+    requires forall|k: &CrateName, t: &String| #[trigger] f.requires((k, t))
+    ensures match r { Some((k, t)) => f.ensures((k, t), true) && all_types.ct().dom().contains(k@) && all_types.ct()[k@].contains(t@), None => true }
 { unimplemented!() }
 '''
 
@@ -117,8 +119,12 @@ fn fallback<'a, 'b: 'a>(all_types: &'a CrateTypes, data: &'b ParsedData, referen
 ''', '\n}\n')
 
 FALLBACK = [
-    rep(A.span('all_types .iter() .flat_map(', '.next()'), 'find_reexport(all_types, &referenced_import.type_name, &data.crate_name)', tag='T3',
-        note='ASSUMED: the search answers only pairs (k, t) with t defined by crate k, t named as the reference, k not the current crate'),
+    rep(A.span('all_types .iter() .flat_map(|(k, v)| {', '.find(|&t|'),
+        'find_reexport(all_types, |k: &CrateName, t: &String| -> (b: bool) '
+        'ensures /*C14: a re-export is looked for under the reference\'s type name, in a crate other than the one being written*/ '
+        'b == (t@ == referenced_import.type_name@ && k@ != data.crate_name@) {', tag='T14b',
+        note='the search over all (crate, type name) pairs becomes a function taking the predicate; the predicate stays the source\'s text'),
+    rep(A.span(') .map(|t| (k, t))', '.next()'), '})', tag='T14b', note='end of the predicate closure / of the search'),
     rep(A.span('used.entry(crate_name)', '.or_insert(BTreeSet::from([ty.as_str()]));'), 'add_one(used, crate_name, ty);', tag='T3', note='entry API'),
 ]
 
@@ -175,7 +181,9 @@ UNIT = Unit(
     name='imports', props=['C14', 'C07'], pre_verus=PRE_VERUS, prelude=PRELUDE,
     items=[
         Item('struct_ImportedType', 'core/src/visitors.rs', ['struct ImportedType']),
-        Item('fallback', SRC, ['fn used_imports'], FALLBACK, wrap=FALLBACK_WRAP, auto=('log',),
+        Item('fallback', SRC, ['fn used_imports'], FALLBACK, wrap=FALLBACK_WRAP,
+             # T15: `&String == &String` (std: compares the referents) has no specification in vstd, `*a == b` has
+             auto=('log', ('tok', 't == &referenced_import.type_name', '*t == referenced_import.type_name', 'T15')),
              block=(A.text("let fallback = |referenced_import: &'a ImportedType, used: &mut ScopedCrateTypes<'a>| {"), A.text('}; for referenced_import in data'))),
         Item('used_imports', SRC, ['fn used_imports'], MAIN, auto=AUTO),
     ],
@@ -183,7 +191,7 @@ UNIT = Unit(
     trusted=[
         'T7: CrateTypes / HashSet<TypeName> / ScopedCrateTypes / HashSet<ImportedType> are stub containers with the std lookups (`get`) specified; CrateName equality is equality of the name',
         'ASSUMED (entry API outlines): add_one / add_all record the pair(s) under the module and change nothing else',
-        'ASSUMED (outlined iterator chain): the re-export search of `fallback` answers only a pair (k, t) with t defined by crate k, named as the reference, k not the current crate',
+        'ASSUMED (std iterator semantics): the re-export search of `fallback` (iter().flat_map(.. find(P) ..).next()) answers a pair (k, t) with t listed under k for which P answered true - P itself is verified',
         'T11: the closure `fallback` is verified as a function with its captured variables as parameters',
     ],
     undecided=[
@@ -192,4 +200,4 @@ UNIT = Unit(
     ],
 )
 UNIT.allowed_calls = {'get', 'iter', 'is_empty', 'len', 'as_str'}
-UNIT.forbid = ['.type_name ==', '.type_name !=', '== referenced_import.type_name', 'format!', '.to_string()', '.into()']
+UNIT.forbid = ['.type_name ==', '.type_name !=', '== &referenced_import.type_name', '!= &referenced_import.type_name', 'format!', '.to_string()', '.into()']
